@@ -129,6 +129,7 @@ struct Shm {
     char term_detail[1024];
     int last_line;
     char last_file[128];
+    volatile long heartbeat; // bumped at every hooked access: the parent uses it to tell a silent hang from slow progress
     // progress
     long executions, decisions, new_nodes, nontrivial, spurious, pruned;
     int max_decisions;
@@ -405,6 +406,7 @@ static void point(int kind, int cls, const void* addr, int size, const char* fil
     watchdog(me);
     if (shm != nullptr) {
         shm->last_line = line;
+        shm->heartbeat = shm->heartbeat + 1;
     }
     bool choice = ((S.opt->cls_mask >> cls) & 1u) != 0;
     if (S.rel_on) {
@@ -896,7 +898,43 @@ RunReport explore(Harness& h, const Options& opt) {
             _exit(0);
         }
         int st = 0;
-        waitpid(pid, &st, 0);
+        {
+            // wait for the child; a child that reaches no hooked access and completes no execution for kStallSeconds is spinning or
+            // blocked in code the scheduler does not see (unhooked loop, lock of the harness itself): kill it and report the hang
+            // with the schedule it was running instead of waiting for the driver's hard deadline
+            const int kStallSeconds = 300;
+            long last_hb = -1, last_ex = -1;
+            long quiet_us = 0;
+            long nap_us = 100; // short scenarios must not pay for the polling: start fine, back off to 100 ms
+            bool stalled = false;
+            for (;;) {
+                pid_t w = waitpid(pid, &st, WNOHANG);
+                if (w == pid) break;
+                if (w < 0 && errno != EINTR) break;
+                usleep(useconds_t(nap_us));
+                long hb = shm->heartbeat, ex = shm->executions;
+                if (hb != last_hb || ex != last_ex) {
+                    last_hb = hb;
+                    last_ex = ex;
+                    quiet_us = 0;
+                } else {
+                    quiet_us += nap_us;
+                }
+                if (nap_us < 100000) nap_us += nap_us / 4 + 1;
+                if (quiet_us >= long(kStallSeconds) * 1000000) {
+                    kill(pid, SIGKILL);
+                    waitpid(pid, &st, 0);
+                    stalled = true;
+                    break;
+                }
+            }
+            if (stalled && shm->finished == 0 && shm->term_verdict == 0) {
+                shm->term_verdict = V_LIVELOCK;
+                snprintf(shm->term_detail, sizeof(shm->term_detail),
+                         "no hooked access and no completed execution for %d s (last hook line %d): a thread spins or blocks where the scheduler cannot see it",
+                         kStallSeconds, shm->last_line);
+            }
+        }
         if (shm->finished != 0) break;
         // the child died inside an execution: crash, deadlock, livelock or divergence
         ExecResult r;
